@@ -21,7 +21,7 @@ func init() {
 			c.run("C01-R5", "GUARD-DOM: negotiated protocol is the minimum of both ends", func(c *Ctx) { c14R3(c) })
 			c.run("C01-R6", "PAIR: open files do not accumulate over the per-file loops", c01R6)
 			c.run("C01-R7", "SIBLING: paired steps run under the same range of negotiated versions", c01R7)
-			c.run("C01-R9", "MUST-PASS: every name produced by the name step is in the list reported to the user", c01R9)
+			c.run("C01-R9", "MUST-PASS: every name produced by the name step is in the list reported to the user", func(c *Ctx) { c01R9(c); c01Contains(c) })
 			c.run("C01-R10", "SIBLING: v1/v2 name payload and its decoding agree on directory mode", c01R10)
 			c.run("C01-R11", "SIBLING: number of per-file rounds = announced number on both ends", c01R11)
 			c.run("C01-R12", "SIBLING: length-prefixed frames are produced and parsed exactly on the binary-mode edge", c01R12)
@@ -233,6 +233,32 @@ func c01R3(c *Ctx) {
 		}
 	})
 	c.check(pure, "isCompressFixed/pure", c.pos(dec.Pos()), "the decision reads only the negotiated config and the size", "the compression decision depends on something other than the negotiated config and the size (the two ends can disagree)")
+	// ... and the negotiated compress setting really arrives on the client: the JSON hook stores the decoded number
+	// into the receiver on its success path (otherwise the client decides with the default while the server uses -c)
+	uj := c.fn("compressType.UnmarshalJSON")
+	um := callsIn(uj, idIs("encoding/json.Unmarshal"))
+	if len(um) != 1 {
+		c.lost("json.Unmarshal in compressType.UnmarshalJSON")
+	}
+	stored := false
+	var target ssa.Value
+	if mi, ok := um[0].Common().Args[1].(*ssa.MakeInterface); ok {
+		target = mi.X
+	}
+	eachInstr(uj, func(in ssa.Instruction) {
+		st, ok := in.(*ssa.Store)
+		if !ok || !isVar("c")(st.Addr) && st.Addr != ssa.Value(uj.Params[0]) {
+			return
+		}
+		if ld, isLd := strip(st.Val).(*ssa.UnOp); isLd && ld.Op == token.MUL && ld.X == target && domI(um[0].(ssa.Instruction), st) {
+			stored = true
+		}
+	})
+	hit, _ := reachFrom(uj.Blocks[0], 0, isNilErrReturn, func(in ssa.Instruction) bool {
+		st, ok := in.(*ssa.Store)
+		return ok && st.Addr == ssa.Value(uj.Params[0])
+	})
+	c.check(stored && hit == nil, "compressType/decoded-value-stored", c.pos(uj.Pos()), "the compress setting decoded from the config is stored on every successful decode", "the decoded compress setting is dropped: the client decides compression from the default, the server from its -c option")
 	for _, side := range []struct{ fn, comp string; send bool }{{"trzszTransfer.sendCompressFlag", tT + "sendLine", true}, {"trzszTransfer.recvCompressFlag", tT + "recvCheck", false}} {
 		f := c.fn(side.fn)
 		dc := callsIn(f, idIs(tT+"isCompressFixed"))
@@ -737,6 +763,32 @@ func c01R9(c *Ctx) {
 			c.check(hit == nil, fname+"/every-name-listed@"+shortID(calleeID(nc.Common())), c.ipos(nc), "each name reaches the append (or is already in the list) before the next file or the success return", "a name can be left out of the reported list", c.pathStr(path)...)
 		}
 	}
+}
+
+// c01Contains: the membership test behind the name list answers yes exactly on an equal element.
+func c01Contains(c *Ctx) {
+	f := c.fn("containsString")
+	nT, nF := 0, 0
+	eachInstr(f, func(in ssa.Instruction) {
+		r, ok := in.(*ssa.Return)
+		if !ok {
+			return
+		}
+		b, isC := constBool(retVal(r, 0))
+		if !isC {
+			c.bad("containsString/result", c.ipos(in), "result is not a constant true/false")
+			return
+		}
+		if b {
+			nT++
+			eq := factCmp(factsAt(in.Block()), token.EQL, isVar("v"), anyValue) || factCmp(factsAt(in.Block()), token.EQL, anyValue, isVar("v"))
+			c.check(eq, "containsString/true-iff-equal", c.ipos(in), "'contained' is answered on the edge where an element equals the value", "'contained' is answered without an element being equal to the value")
+		} else {
+			nF++
+			// only after the range is exhausted: not reachable from the equal edge
+		}
+	})
+	c.check(nT == 1 && nF == 1, "containsString/shape", c.pos(f.Pos()), "one 'contained' exit (on equality) and one 'not contained' exit", "the membership test no longer has exactly one yes and one no exit")
 }
 
 func shortID(id string) string {
